@@ -11,7 +11,7 @@ Driver of C19. Payload (space separated):
 * types (comma separated, `-` = none): `int int8 … uintptr f32 f64 bool str iface error io<n>
   emap o<n>`, `S<type>` for a slice, `N<n>(<type>)` for a defined type with that underlying type; with `V` the last parameter is the variadic slice.
 * body: `echo` (returns what it received), `echo+<value>|…` (… followed by these values), `vlen` (returns the fixed arguments and the number of
-  variadic ones), `k:<value>|<value>…` (returns these values; `k:` = none), `panic`, `pfirst`/`pstr`/`pnum`/`plen` (plugin functions: return the first argument — any, a string, a
+  variadic ones), `k:<value>|<value>…` (returns these values; `k:` = none), `panic`, `panicnil` (a panic for which recover() returns nil), `pfirst`/`pstr`/`pnum`/`plen` (plugin functions: return the first argument — any, a string, a
   number; panic otherwise — resp. the number of arguments), `opaque`
   (a function of the generated stdlib: assumed not to panic, values unknown), `notfunc`.
 * values: `z` nil, `b:0|1`, `n:<float64 bits|nan>`, `g:<bits>` float32 (as float64 bits),
@@ -19,8 +19,8 @@ Driver of C19. Payload (space separated):
   harness's error value). An argument number carries the platform's conversion to the
   parameter's integer kind as `n:<bits>:<decimal>` (`-` if the parameter is not of integer kind),
   followed by `!` when the value is outside the kind's range: Go leaves that conversion
-  implementation-defined, so for such a case only the outcome class is compared — returned and
-  received values are printed as `~` on both sides.
+  implementation-defined, so at that position the received value — and the returned one where the
+  body hands the argument back — is printed as `~` on both sides.
 
 Result: `V <value> recv=[…]` | `E f recv=[…]` (the function's own error) | `E b recv=…` (an error
 made by the bridge; `recv=-`: function not reached) | `X` (escaped panic). Modes I/T: `V <value> …`,
@@ -84,7 +84,7 @@ def decodeF64 (b : Nat) : Num :=
   let mant : Nat := b % 2 ^ 52
   let sgn (n : Nat) : Int := if neg then -(n : Int) else (n : Int)
   if ex == 2047 then (if mant == 0 then .inf neg else .nan)
-  else if ex == 0 then .fin (sgn mant) (-1074)
+  else if ex == 0 then (if mant == 0 && neg then .negZero else .fin (sgn mant) (-1074))
   else .fin (sgn (mant + 2 ^ 52)) ((ex : Int) - 1075)
 
 def hex16 (n : Nat) : String :=
@@ -92,6 +92,7 @@ def hex16 (n : Nat) : String :=
 
 def encodeF64 : Num → String
   | .nan => "nan"
+  | .negZero => "8000000000000000"
   | .inf neg => if neg then "fff0000000000000" else "7ff0000000000000"
   | .fin m e =>
     if m == 0 then "0000000000000000" else
@@ -118,7 +119,7 @@ partial def parseVal (s : String) : Option (Val × Option Int) :=
     do let id ← idS.toNat?; let v ← parseVal (String.ofList inner); pure (.named id v.1, none)
   | ['z'] => some (.nil, none)
   | ['f'] => some (.foreign (.other 1) "f", none)
-  | ['e'] => some (.foreign (.other 2) "e", none)
+  | 'e' :: _ => some (.foreign (.other 2) s, none)   -- error values: e plain, en typed nil, eb Error() panics, er runtime error, ez nil runtime error
   | 'b' :: ':' :: r => some (.bool (r == ['1']), none)
   | 's' :: ':' :: _ => some (.str s, none)
   | 'l' :: _ => some (.list s, none)
@@ -159,11 +160,13 @@ def mkBody (sig : Sig) (b : String) : Option (List Val → BodyOut) :=
     let n := sig.params.length - 1
     some fun l => .ret (l.take n ++ [.int .int ((l.length - n : Nat) : Int)])
   else if b = "panic" then some fun _ => .panic
+  else if b = "panicnil" then some fun _ => .panicNil
   -- plugin bodies: first argument (any / a string / a number), number of arguments
   else if b = "pfirst" then some fun l => match l with | a :: _ => .ret [a, .nil] | [] => .panic
   else if b = "pstr" then some fun l => match l with | .str c :: _ => .ret [.str c, .nil] | _ => .panic
   else if b = "pnum" then some fun l => match l with | .f64 x :: _ => .ret [.f64 x, .nil] | _ => .panic
   else if b = "plen" then some fun l => .ret [.f64 (Num.ofInt l.length), .nil]
+  else if b = "plenint" then some fun l => .ret [.int .int l.length, .nil]
   else if b = "opaque" then some fun _ => .ret []
   else if b.startsWith "echo+" then
     let r := String.ofList (b.toList.drop 5)
@@ -178,11 +181,21 @@ def mkBody (sig : Sig) (b : String) : Option (List Val → BodyOut) :=
     that the regenerated facts do not refute it): if the source loses its recover, the run shows a
     concrete crashing input instead of agreeing with the broken code. -/
 def requiredShape : Shape :=
-  { recovers := true, arityChecked := true }
+  { recovers := true, arityChecked := true, nilPanicReported := true }
+
+/-- how `executeFunction` experiences the harness's error values -/
+def errKind : Val → ErrKind
+  | .foreign _ "en" => .errorPanics
+  | .foreign _ "eb" => .errorPanics
+  | .foreign _ "er" => .runtimeError
+  | .foreign _ "ez" => .nilRuntimeError
+  | _ => .plain
 
 def runCase (payload : String) : String :=
   match payload.splitOn " " with
   | _name :: mode :: sigS :: bodyS :: argS =>
+    -- d / i / t = D / I / T executed under GODEBUG=panicnil=1 (the body description says what that means)
+    let mode := mode.toUpper
     match parseSig sigS, argS.mapM parseVal with
     | some sig, some argsO =>
       let args := argsO.map (·.1)
@@ -197,7 +210,15 @@ def runCase (payload : String) : String :=
         | .f64 x, some (.int k) => (match x.trunc with | some n => !k.inRange n | none => true)
         | _, _ => false
       if marked != modelOob then "RANGE-MARKER-MISMATCH" else
-      let masked := marked.any id
+      -- per position: a received value is masked where its argument is marked; a returned value where
+      -- the body hands a marked argument back (echo, echo+…, the fixed part of vlen)
+      let maskRes : List Bool :=
+        if bodyS = "echo" || bodyS.startsWith "echo+" then marked
+        else if bodyS = "vlen" then marked.take (sig.params.length - 1)
+        else []
+      let showM := fun (m : Bool) (v : Val) => if m then "~" else showVal v
+      let zipM := fun (ms : List Bool) (vs : List Val) =>
+        (vs.zip (ms ++ List.replicate vs.length false)).map fun (v, m) => showM m v
       -- the platform's out-of-range conversions, keyed by (kind, number)
       let table : List (IntKind × Num × Int) := (argsO.zip sig.params).filterMap fun ((v, o), p) =>
         match v, o, p with
@@ -215,8 +236,12 @@ def runCase (payload : String) : String :=
         let out := run requiredShape oob tgt args
         let reached := if bodyS = "notfunc" then none else reaches oob sig args
         let recv := if bodyS = "opaque" && reached.isSome then "recv=?"
-          else if masked && reached.isSome then "recv=~" else showRecv reached
-        let showRet := fun (r : Ret) => if masked then "~" else showRet r
+          else match reached with
+            | none => "recv=-"
+            | some l => "recv=[" ++ ";".intercalate (zipM marked l) ++ "]"
+        let showRet := fun (r : Ret) => match r with
+          | .one v => showM (maskRes.headD false) v
+          | .many vs => "l[" ++ ",".intercalate (zipM maskRes vs) ++ "]"
         let nt := if reached.isSome then "\tnt=1" else ""
         let opaqueV := bodyS = "opaque"
         let res :=
@@ -227,7 +252,7 @@ def runCase (payload : String) : String :=
             | .done _ (some (.func _)) => "E f " ++ recv
             | .done _ (some _) => "E b " ++ recv
           else
-            match executeFunction out with
+            match executeFunction true errKind out with
             | .crash => "X"
             | .value r => "V " ++ (if opaqueV then "?" else showRet r) ++ " " ++ recv
             | .runtimeError => (if mode = "T" then "C " else "E ") ++ recv
